@@ -158,6 +158,14 @@ def run_specs(pid, tier, seed, factor, judge):
             c["patterns"] = upword.rand_patterns(rnd, "abc", 3, 2)
             cfgs.append(c)
     if pid == "C01":
+        # ready rules made for classes other than the one being expanded (default / memory-saving databases key rules by label)
+        for _ in range(common.scale(tier, 24, 240) * factor):
+            c = specrun.rand_config(rnd, None)
+            c.update(factory="lookahead", db=rnd.choice(["RuleDB", "RuleDBForgetStrategy", "RuleDB"]), iterative=False, reverse_needed=False,
+                     prefver=None, packver=None, rot=False, sep=None, prefix="")
+            if "track" in c["mode"]:
+                c["mode"] = ""
+            cfgs.append(c)
         # classes that can only be counted through a reverse product rule (quotient by a non-atom sibling): forest database
         for _ in range(common.scale(tier, 24, 240) * factor):
             c = specrun.rand_config(rnd, None)
